@@ -55,7 +55,7 @@ static op_t *ol_add(oplist_t *l, int kind) {
 static void build_program(prog_t *p, rng_t *r, char *feat, size_t featn) {
     prog_add_source(p, 1, "crash-src");
     int nsig = (int) rng_range(r, 1, 3);
-    oplist_t lists[6]; memset(lists, 0, sizeof(lists));
+    oplist_t lists[7]; memset(lists, 0, sizeof(lists));
     size_t nl = 0, fn = 0;
     feat[0] = 0;
     int late_def = rng_chance(r, 1, 3);
@@ -95,6 +95,21 @@ static void build_program(prog_t *p, rng_t *r, char *feat, size_t featn) {
         fn += (size_t) snprintf(feat + fn, featn - fn, "%s%s/%s/omit=%d", i ? "+" : "", t->name, DEF_CLASS_NAME[dcls], omit);
         ++nl;
     }
+    /* a variable-sample-rate signal that only carries annotations, with an id above or below the FSR signals */
+    int vsr = rng_chance(r, 1, 2);
+    if (vsr) {
+        struct jls_signal_def_s d;
+        uint16_t sid = rng_chance(r, 2, 3) ? 20 : 1;
+        gen_def(r, &d, sid, 1, dtype_by_name("f32"), DEF_MINIMAL);
+        d.signal_type = JLS_SIGNAL_TYPE_VSR; d.sample_rate = 0; d.annotation_decimate_factor = 3;
+        size_t before = p->n;
+        prog_add_signal(p, &d, "vsr", "", PAT_WALK, 1);
+        if (late_def) { *ol_add(&lists[nl], OP_SIGNAL) = p->ops[before]; p->n = before; }
+        int nva = (int) rng_range(r, 1, 14); int64_t vts = rng_range(r, -50, 50);
+        for (int i = 0; i < nva; ++i) { op_t *a = ol_add(&lists[nl], OP_ANNO); a->id = sid; vts += (int64_t) rng_below(r, 4); a->ts = vts; a->y = (float) i; a->atype = (uint8_t) rng_below(r, 4); a->stype = (uint8_t) rng_range(r, 1, 3); a->dsize = (uint32_t) rng_range(r, 1, 30); a->dseed = rng_u64(r); }
+        fn += (size_t) snprintf(feat + fn, featn - fn, "+vsr%u", sid);
+        ++nl;
+    }
     int nanno = (int) rng_range(r, 0, 12); int64_t ts = 0;
     for (int i = 0; i < nanno; ++i) { op_t *a = ol_add(&lists[nl], OP_ANNO); a->id = 0; ts += (int64_t) rng_below(r, 3); a->ts = ts; a->y = NAN; a->atype = 1; a->stype = JLS_STORAGE_TYPE_STRING; a->dsize = (uint32_t) rng_range(r, 1, 20); a->dseed = rng_u64(r); }
     ++nl;
@@ -102,7 +117,7 @@ static void build_program(prog_t *p, rng_t *r, char *feat, size_t featn) {
     for (int i = 0; i < nuser; ++i) { op_t *u = ol_add(&lists[nl], OP_USER); u->meta = (uint16_t) rng_below(r, 4096); u->stype = (uint8_t) rng_range(r, 1, 3); u->dsize = (uint32_t) rng_range(r, 1, 200); u->dseed = rng_u64(r); }
     ++nl;
     snprintf(feat + fn, featn - fn, "|late-def=%d|anno=%d|user=%d", late_def, nanno > 0, nuser > 0);
-    op_t *ls[6]; size_t cn[6];
+    op_t *ls[7]; size_t cn[7];
     for (size_t i = 0; i < nl; ++i) { ls[i] = lists[i].ops; cn[i] = lists[i].n; }
     prog_interleave(p, r, ls, cn, nl);
     for (size_t i = 0; i < nl; ++i) free(lists[i].ops);
